@@ -98,6 +98,12 @@ CLAIMED = {
          'functions and swap flag their keys denote; every block codec that emits blocks only when full also emits the partial block from its close hook in write mode; close hooks rewrite the '
          'header. ALAC / DWVW / DPCM / SDS / PAF bit-stream arithmetic and int<->float scaling round trips are not decided.',
          'symbolic bit-lane abstract interpretation of conversion kernels; dispatch table extraction; partial evaluation for close-hook reachability'),
+ 'C03': ('DESIGN.md §4 C03',
+         'All 226 copy sinks with a visible fixed-capacity destination are proven bounded by the interval / upper-bound analysis (5 carry a written argument); every reading loop outside the '
+         'staging loops has an exit controlled by read progress or a non-wrapping monotone counter; psf_open_file reaches success only through validate_sfinfo / validate_psf with the documented '
+         'comparisons; header cache growth is capped and every cache write follows a capacity test; caller-supplied codec geometry is checked before it divides. '
+         'Absence of all memory errors for all inputs (heap destinations without visible capacity) and the time bound as such are not decided.',
+         'bounded-sink proof by demand-driven interval + symbolic bound analysis; loop-exit idiom analysis; dominance rules'),
 }
 REASONS = {}
 DEFAULT_REASON = 'check not built yet (work in progress); see DESIGN.md'
